@@ -148,3 +148,25 @@ Lemma go_c07_never_ends_joined_any : forall cf t w v w' v' res es,
   run_scope go_shape cf t w v = (w', v', res, es) ->
   ~ In (g_xid v) (sp_xids es).
 Proof. intros. eapply c07_never_ends_joined_any_world; eauto using go_shape_ok. Qed.
+
+(* ---------------------------------------------------------------- C04 lifted to programs, at the regenerated shape *)
+From SeataV Require Import Tm.TmDecisionProofs.
+
+Lemma go_c04_tree_decision : forall cf t w v w' v' res es,
+  w_next w <> 0 -> run_scope go_shape cf t w v = (w', v', res, es) ->
+  forall x, seg x es <> [] -> exists s, In s (subscopes t) /\ decided cf x s es.
+Proof. intros. eapply all_decide; eauto using go_shape_ok. Qed.
+
+Lemma go_c04_tree_complete : forall cf t w v w' v' res es,
+  w_next w <> 0 -> alive w -> run_scope go_shape cf t w v = (w', v', res, es) -> diverged es = false ->
+  forall id x nm, x <> 0 -> In (EEnter id x Launcher nm) es -> seg x es <> [].
+Proof.
+  intros cf t w v w' v' res es Hn Ha H Hd id x nm Hx Hin. apply seg_in.
+  destruct (all_complete go_shape cf go_shape_ok t _ _ _ _ _ _ Hn Ha H Hd) as [_ Hc]. eapply Hc; eauto.
+Qed.
+
+Lemma go_c04_tree_nil_truthful : forall cf t w v w' v' res es,
+  run_scope go_shape cf t w v = (w', v', res, es) ->
+  (res = RNilC -> match t with Scope _ _ _ _ out => out = ONil end) /\
+  forall id, In (ERet id RNilC) es -> exists m sh kids, In (Scope m id sh kids ONil) (subscopes t).
+Proof. intros. eapply all_nil_truthful; eauto. Qed.
